@@ -681,10 +681,11 @@ class World(object):
         if self._debug:
             dbg.enable()
         success = False
+        main_task = self.loop.create_task(scheduler.run(
+            self, until, rt_factor, rt_strict, lazy_stepping
+        ))
         try:
-            self.loop.run_until_complete(scheduler.run(
-                self, until, rt_factor, rt_strict, lazy_stepping
-            ))
+            self.loop.run_until_complete(main_task)
             success = True
         except KeyboardInterrupt:
             logger.info('Simulation canceled. Terminating ...')
@@ -698,6 +699,16 @@ class World(object):
                 )
             )
         finally:
+            # A KeyboardInterrupt or SystemExit (also one raised inside an
+            # in-process simulator) leaves the event loop at once. Let the
+            # scheduler wind down before the simulators are stopped;
+            # otherwise the exception comes up again while shutting down.
+            while not main_task.done():
+                main_task.cancel()
+                try:
+                    self.loop.run_until_complete(main_task)
+                except BaseException:
+                    pass
             for sid, sim in self.sims.items():
                 sim.tqdm.close()
             self.tqdm.close()
